@@ -133,7 +133,7 @@ pub fn libs() -> Vec<Lib> {
             name: "two-parents",
             notes: own(&[
                 ("p", "# Beta\n\n[Alpha](x)\n"),
-                ("q", "# Gamma\n\n[Alpha](x)\n\n## Sub\n\n[Alpha](x)\n"),
+                ("q", "# Gama\n\n[Alpha](x)\n\n## Sub\n\n[Alpha](x)\n"),
                 ("x", "# Alpha\n\n## Inner\n\ntext\n"),
                 ("z", "# Zeta\n\nsee [Alpha](x)\n"),
             ]),
